@@ -266,6 +266,36 @@ func (h *SimH) do(q *Req, c flamego.Context, rw http.ResponseWriter, r *http.Req
 		if r != nil {
 			q.Note("sees=" + r.Method + " " + r.URL.Path + "?" + r.URL.RawQuery)
 		}
+	case OpSeeBody:
+		if c != nil {
+			b, err := c.Request().Body().String()
+			if err != nil {
+				q.Note("body:err")
+			} else {
+				q.Note("body=" + b)
+			}
+		}
+	case OpMapRH:
+		if c != nil {
+			name := q.Name
+			c.Map(flamego.ReturnHandler(func(cc flamego.Context, vals []reflect.Value) {
+				s := "RH[" + name + "]"
+				for _, v := range vals {
+					if v.Kind() == reflect.String {
+						s += ":" + v.String()
+					}
+				}
+				_, _ = cc.ResponseWriter().Write([]byte(s))
+			}))
+		}
+	case OpMutQuery:
+		if c != nil {
+			l := c.QueryStrings("q")
+			q.Note("qs=" + strings.Join(l, ","))
+			for i := range l {
+				l[i] = "MUTATED-BY-" + q.Name
+			}
+		}
 	case OpReplaceCtx:
 		if c != nil {
 			ctx, cancel := gocontext.WithCancel(c.Request().Context())
